@@ -199,8 +199,8 @@ func vHistory(p string, steps int, symbolic bool) {
 	vHistorySymbolic = symbolic
 	vMinRaised = false
 	nOps := 13
-	if steps > 2 {
-		nOps = 8 // longer histories over the core alphabet (no discarded branches, votes, custom burns)
+	if steps > 2 || symbolic {
+		nOps = 8 // longer histories, and histories with symbolic amounts, over the core alphabet (no discarded branches, votes, custom burns)
 	}
 	e := vHistoryEnv()
 	e.Fund(e.Addrs[2], vSym("bal2", 0, 1<<50, 7000000))
